@@ -104,7 +104,33 @@ pub enum EdOp {
     /// "atomic save" of an editor: write `<PATHS[p]>.tmp~` next to the file, then rename it
     /// over PATHS[p] (which may or may not exist)
     AtomicSave(usize, usize),
+    /// the project's configuration file is rewritten with this set of compiler options
+    /// (`config_json`); the watcher reacts with a full restart of the compiler state
+    WriteConfig(u8),
 }
+
+/// `isograph.config.json` of a simulated project; `options` is a bit set: 1 persisted
+/// documents, 2 CommonJS module, 4 file extensions in imports, 8 a generated-file header,
+/// 16 persisted documents with md5 and extra info.
+pub fn config_json(options: u8) -> String {
+    let mut opts = vec!["\"on_invalid_id_type\":\"error\"".to_string()];
+    if options & 16 != 0 {
+        opts.push("\"persisted_documents\": {\"algorithm\": \"md5\", \"include_extra_info\": true}".into());
+    } else if options & 1 != 0 {
+        opts.push("\"persisted_documents\": {}".into());
+    }
+    if options & 2 != 0 {
+        opts.push("\"module\": \"commonjs\"".into());
+    }
+    if options & 4 != 0 {
+        opts.push("\"include_file_extensions_in_import_statements\": true".into());
+    }
+    if options & 8 != 0 {
+        opts.push("\"generated_file_header\": \"generated by the simulated project\"".into());
+    }
+    format!("{{ \"project_root\": \"./src\", \"schema\": \"./schema.graphql\", \"schema_extensions\": [\"./schema-ext.graphql\"], \"options\": {{{}}} }}\n", opts.join(", "))
+}
+
 
 pub struct World {
     pub root: PathBuf,
@@ -277,6 +303,10 @@ impl World {
             }
             EdOp::WriteExt(v) => {
                 self.write_raw("schema-ext.graphql", EXT_VARIANTS[*v % EXT_VARIANTS.len()].as_bytes());
+                true
+            }
+            EdOp::WriteConfig(options) => {
+                self.write_raw("isograph.config.json", config_json(*options).as_bytes());
                 true
             }
         }
